@@ -358,7 +358,9 @@ def common_checks(world, pre, post, r, res, cell, out):
 
 
 def _tol(pre):
-    return TOL_CONTRACT if pre.contraction else TOL
+    # some paths contract whatever the Config flag says (Envelope.apply_kraus ends with contract()), and
+    # a contraction may drop eigenvalues below the library's 1e-6 purity cut: one tolerance for every step
+    return TOL_CONTRACT
 
 
 # ------------------------------------------------------------------------------------------
